@@ -332,7 +332,7 @@ def sym_str(name, n):
         v = ctx.fresh("%s_%d" % (name, i), 8)
         ctx.solver.add(z3.ULT(v, 128))
         cs.append(v)
-    return SymStr(cs) if n else ""
+    return SymStr(cs)  # also for n == 0: a plain "" could not dispatch str methods to proxy arguments
 
 
 class SymText:
